@@ -37,7 +37,7 @@ RULE = (
     "Resources/MediaBox/CropBox/Rotate at random nodes (direct/indirect, boxes with indirect elements), Rotate in "
     "{0,90,180,270,-90,-270,360,450,810,-450}, MediaBox origins incl. negative; cyclic/repeated Kids family under a step "
     "budget; selection family: all non-empty page_numbers subsets x maxpages 0..n+1 for n<=5 (exhaustive), random beyond, "
-    "through PDFPage.get_pages, extract_pages and extract_text. distinct = distinct document bytes (+selection); "
+    "through PDFPage.get_pages, extract_pages and extract_text, and a sample of them through tools/pdf2txt.py and tools/dumppdf.py (-p, --pagenos, --page-numbers, -m; one-based). distinct = distinct document bytes (+selection); "
     "non-trivial = tree depth>=2 or an inherited attribute or a rotation != 0 or a cycle or a proper selection. "
     "Not generated: empty page_numbers (ambiguous: falsy means 'all'), pages without any MediaBox on their path, Kids that "
     "are direct dictionaries; reversed-corner MediaBox only as tagged sub-family."
